@@ -216,8 +216,17 @@ func gen(r *vh.Rand, tier string, n int, emit func(vh.Case)) {
 			g.files[name] = &gfile{kind: "file", data: data}
 			g.emit("fwrite %s %s", name, vh.Hex(data))
 		}
+		// file contents: random bytes, often ending in a run of zero bytes (a truncation inside the run
+		// removes bytes that a zero-initialised read buffer would "restore")
+		content := func() []byte {
+			d := rr.Bytes(rr.Range(0, 48))
+			if rr.Chance(1, 3) {
+				d = append(d, make([]byte, rr.Range(1, 16))...)
+			}
+			return d
+		}
 		for j, m := 0, rr.Range(1, 3); j < m; j++ {
-			writeFile(names[j], rr.Bytes(rr.Range(0, 48)))
+			writeFile(names[j], content())
 		}
 		setURL := func(name string) {
 			u := &gurl{kind: vh.Pick(rr, []string{"range", "range", "range", "full", "down", "status"}), content: rr.Bytes(rr.Range(0, 40))}
@@ -258,6 +267,9 @@ func gen(r *vh.Rand, tier string, n int, emit func(vh.Case)) {
 			if f != nil && f.kind == "file" && len(f.data) > 0 {
 				off = uint64(rr.Intn(len(f.data)))
 				data = f.data[off : int(off)+rr.Intn(len(f.data)-int(off)+1)]
+				if rr.Chance(1, 3) {
+					data = f.data[off:] // up to the end of the file
+				}
 			}
 			honest := append([]byte{}, data...)
 			if rr.Chance(1, 8) {
@@ -337,7 +349,15 @@ func gen(r *vh.Rand, tier string, n int, emit func(vh.Case)) {
 			case k < 54: // truncation
 				name := vh.Pick(rr, names[:3])
 				if f := g.files[name]; f != nil && f.kind == "file" {
-					writeFile(name, append([]byte{}, f.data[:rr.Intn(len(f.data)+1)]...))
+					cut := rr.Intn(len(f.data) + 1)
+					z := len(f.data)
+					for z > 0 && f.data[z-1] == 0 {
+						z--
+					}
+					if z < len(f.data) && rr.Bool() { // cut inside the trailing run of zeros
+						cut = rr.Range(z, len(f.data)-1)
+					}
+					writeFile(name, append([]byte{}, f.data[:cut]...))
 				}
 			case k < 58: // extension
 				name := vh.Pick(rr, names[:3])
@@ -345,7 +365,7 @@ func gen(r *vh.Rand, tier string, n int, emit func(vh.Case)) {
 					writeFile(name, append(append([]byte{}, f.data...), rr.Bytes(rr.Range(1, 9))...))
 				}
 			case k < 62:
-				writeFile(vh.Pick(rr, names[:3]), rr.Bytes(rr.Range(0, 48)))
+				writeFile(vh.Pick(rr, names[:3]), content())
 			case k < 67:
 				name := vh.Pick(rr, names[:3])
 				delete(g.files, name)
